@@ -246,6 +246,52 @@ func c08Eval(c *fw.Ctx, k c08Case) (sig, desc string, nontrivial bool, outcome s
 		_ = clobbered
 		return "C08/second-copy-changes-file", fmt.Sprintf("%s: repeating the copy gives %s and changes the file: %v", ctx, classify(err2, pn2), !bytes.Equal(post, post2)), nontrivial, outcome
 	}
+	// a second session: the source changes in one slot (a new value, or a value where there was none) and the
+	// same command runs again on the destination the first run left behind
+	if !k.Glob && len(k.Src) > 0 {
+		src2 := wsp.CloneRings(src)
+		pos := 0
+		for _, x := range k.Src {
+			pos = pos*3 + x
+		}
+		done := false
+		for i, a := range l.Archs {
+			ts := SlotTimes(a, k.Now)
+			t := ts[(pos+i)%len(ts)]
+			cls := uint32(t/int64(a.Step)) % a.N
+			if !done && (k.Archive == -1 || k.Archive == i) {
+				src2[i][cls] = wsp.Slot{T: uint32(t), V: 42.5 + float64(i)}
+				done = true
+			}
+		}
+		(&BFile{L: l, Rings: src2, Base: sf.Base}).Write(filepath.Join(sdir, rel))
+		err3, pn3 := RunCommand(k.Now, mk())
+		os.Remove(out)
+		if classify(err3, pn3) == "nil" {
+			b3, _ := os.ReadFile(dpath)
+			if f3, e3 := wsp.Parse(b3); e3 == nil {
+				if r3, e3 := f3.Rings(); e3 == nil {
+					w3, _ := ExpRead(l, src2, k.Archive, k.From, until, k.Now)
+					h3, _ := ExpRead(l, r3, k.Archive, k.From, until, k.Now)
+					for i := range w3 {
+						if w3[i] == nil {
+							continue
+						}
+						for j, sv := range w3[i].Vals {
+							if (!math.IsNaN(sv) || k.CopyNaN) && !valEqual(sv, h3[i].Vals[j]) {
+								return "C08/second-session/dest-differs", fmt.Sprintf("%s: after the source changed in one slot and the copy ran again: archive %d value %d is %v, source %v", ctx, i, j, h3[i].Vals[j], sv), nontrivial, outcome
+							}
+						}
+					}
+				} else {
+					return "C08/second-session/destination-unparsable", ctx + ": " + e3.Error(), nontrivial, outcome
+				}
+			}
+		}
+		sf.Write(filepath.Join(sdir, rel)) // restore for the diff below
+		RunCommand(k.Now, mk())
+		os.Remove(out)
+	}
 	// diff over the same window lists none of the constrained slots
 	dcmd := &wcmd.DiffCommand{SrcBase: sdir, SrcRelPath: rel, DestBase: ddir, From: tsOf(k.From), Until: tsOf(k.Until), ArchiveID: k.Archive, TextOut: out}
 	derr, dpn := RunCommand(k.Now, dcmd)
@@ -266,7 +312,69 @@ func c08Eval(c *fw.Ctx, k c08Case) (sig, desc string, nontrivial bool, outcome s
 	return "", "", nontrivial, outcome
 }
 
+// c08Big: a copy between files of several 4 KiB pages (700 + 14 slots): every slot of the window must arrive.
+func c08Big(c *fw.Ctx) {
+	l := wsp.Layout{Archs: LP.Archs, Method: 2, XFF: 0}
+	now := Clocks(LP.Archs, false, []string{"mid"})[1]
+	root := filepath.Join(c.Dir, "c08big")
+	for variant := 0; variant < 4; variant++ {
+		os.RemoveAll(root)
+		src, dst := EmptyRings(l), EmptyRings(l)
+		for i, a := range l.Archs {
+			for j, t := range SlotTimes(a, now) {
+				cls := uint32(t/int64(a.Step)) % a.N
+				if (j+variant)%7 != 3 {
+					src[i][cls] = wsp.Slot{T: uint32(t), V: float64(j*(i+1)) + 0.5}
+				}
+				if variant >= 1 && j%3 == 0 {
+					dst[i][cls] = wsp.Slot{T: uint32(t), V: -1}
+				}
+				if variant == 3 && j%5 == 1 {
+					dst[i][cls] = src[i][cls] // already equal
+				}
+			}
+		}
+		(&BFile{L: l, Rings: src, Base: []int{variant * 97, variant}}).Write(filepath.Join(root, "s", "a.wsp"))
+		if variant >= 1 {
+			(&BFile{L: l, Rings: dst, Base: []int{341, 2}}).Write(filepath.Join(root, "d", "a.wsp"))
+		}
+		for _, nan := range []bool{false, true} {
+			cmd := &wcmd.CopyCommand{SrcBase: filepath.Join(root, "s"), SrcRelPath: "a.wsp", DestBase: filepath.Join(root, "d"), AggregationMethod: wt.Sum, ArchiveInfoList: archList(l.Archs), ArchiveID: -1, TextOut: "", CopyNaN: nan}
+			err, pn := RunCommand(now, cmd)
+			c.Count("evaluations", 1)
+			if err != nil || pn != "" {
+				continue
+			}
+			c.Count("successful_copies", 1)
+			c.Count("distinct_nontrivial", 1)
+			b, _ := os.ReadFile(filepath.Join(root, "d", "a.wsp"))
+			f, perr := wsp.Parse(b)
+			var got []wsp.Ring
+			if perr == nil {
+				got, perr = f.Rings()
+			}
+			if perr != nil {
+				c.Violate("C08/big/destination-unparsable", fmt.Sprintf("copy of a 714-slot file (variant %d): %v", variant, perr), 9000, c08Case{Layout: "LP", Now: now, DstKind: fmt.Sprint("big", variant), CopyNaN: nan}, "")
+				continue
+			}
+			want, _ := ExpRead(l, src, -1, 0, now, now)
+			have, _ := ExpRead(l, got, -1, 0, now, now)
+			for i := range want {
+				for j, sv := range want[i].Vals {
+					if (!math.IsNaN(sv) || nan) && !valEqual(sv, have[i].Vals[j]) {
+						c.Violate("C08/big/dest-differs", fmt.Sprintf("copy of a 714-slot file spanning three pages (variant %d, copy-nan=%v): archive %d slot %d holds %v, source %v", variant, nan, i, j, have[i].Vals[j], sv), 9000+j, c08Case{Layout: "LP", Now: now, DstKind: fmt.Sprint("big", variant), CopyNaN: nan}, "")
+						break
+					}
+				}
+			}
+		}
+	}
+}
+
 func runC08(c *fw.Ctx) {
+	if c.Shard == 0 {
+		c08Big(c)
+	}
 	tags := []string{"L4", "L10"}
 	if c.Thorough() {
 		tags = append(tags, "L5")
@@ -415,6 +523,14 @@ func replayC08(c *fw.Ctx, raw json.RawMessage) (bool, string) {
 	var k c08Case
 	if err := json.Unmarshal(raw, &k); err != nil {
 		return false, err.Error()
+	}
+	if k.Layout == "LP" {
+		c2 := &fw.Ctx{Prop: c.Prop, Tier: "quick", Of: 1, Dir: c.Dir, Deadline: c.Deadline, R: fw.NewResult()}
+		c08Big(c2)
+		for _, v := range c2.R.Violations {
+			return true, v.Desc
+		}
+		return false, "big copies arrive complete"
 	}
 	sig, desc, _, _ := c08Eval(c, k)
 	return sig != "", desc
